@@ -52,27 +52,18 @@ theorem fits8_of_cells (p : Pic) (ice : Bool) (h : allCells p (attrCell ice) = t
   have := List.all_eq_true.mp (List.all_eq_true.mp h r hr) c hc
   unfold attrCell at this
   simp only [Bool.and_eq_true, decide_eq_true_eq] at this
-  simpa using this.1.1.1
-
-theorem dims_ansi (w h : Nat) (hw : w < 65536) (hh : h < 65536) :
-    sauceDims (BinFmt.sauceDtCharacter % 256) (BinFmt.sauceFtAnsi % 256) (w % 256 + (w / 256) % 256 * 256) (h % 256 + (h / 256) % 256 * 256)
-      BinFmt.sauceFlagNonBlink = (w, h, true) := by
-  unfold sauceDims
-  have e1 : w % 256 + (w / 256) % 256 * 256 = w := by omega
-  have e2 : h % 256 + (h / 256) % 256 * 256 = h := by omega
-  rw [e1, e2]
-  rfl
+  simpa using this.1.1
 
 /-- the ADF loader on the body the writer produced, whatever `from_bytes` found at the end of the file -/
-theorem adf_load (p : Pic) (f0 : Font) (s : Option Sauce)
-    (hs : s = none ∨ s = some ⟨80, p.h, true, 129⟩)
+theorem adf_load (p : Pic) (f0 : Font) (s : Option Sauce.Sauce)
+    (hs : ∀ s', s = some s' → s'.width = 80)
     (hwf : wellFormed p = true) (hw : p.w = 80) (hcells : allCells p (attrCell true) = true)
     (hpal : pal16 p.pal = true) (hpages : analyzeFontUsage p.rows.flatten = [0]) (hfd : f0.data.length = 4096) :
     adfLoad (BinFmt.adfVersion :: (toEgaData p.pal ++ (f0.data ++
         p.rows.flatMap (fun row => row.flatMap fun c => [c.ch, asU8 .ice c.attr])))) s =
       .ok { bw := 80, bh := (p.h : Int), lw := 80, lh := (p.h : Int),
             lines := (p.rows.map fun r => r.map shownCell).map (partRow 80), ice := .ice, pal := p.pal,
-            fonts := [(0, mkFont 16 f0.data)] } := by
+            fonts := [(0, mkFont 16 f0.data)], sauce := s.map metaOf } := by
   obtain ⟨hne, hrows, hwid⟩ := rows_nonempty p hwf
   unfold pal16 at hpal
   simp only [Bool.and_eq_true, beq_iff_eq] at hpal
@@ -94,19 +85,17 @@ theorem adf_load (p : Pic) (f0 : Font) (s : Option Sauce)
     obtain ⟨r0, hr0, rfl⟩ := List.mem_map.mp hr
     rw [List.length_map, hwid r0 hr0, hw]
   -- the start buffer
-  have hstart : ∃ bh0 lh0 : Int, (LBuf.start BinFmt.adfStartW BinFmt.adfStartH (BinFmt.adfClearsRows == 1)).setSauce s =
-      { bw := 80, bh := bh0, lw := 80, lh := lh0, lines := [], ice := (if s.isSome then .ice else .unlimited), pal := dosPalette,
-        fonts := [(0, defaultFont)] } := by
-    rcases hs with hs | hs
-    · subst hs; exact ⟨25, 25, rfl⟩
-    · subst hs
-      refine ⟨(p.h : Int), (p.h : Int), ?_⟩
-      unfold LBuf.setSauce LBuf.start
-      have hc : (BinFmt.adfClearsRows == 1) = true := by decide
-      have hcond : ¬ ((80 : Nat) = 0 ∨ 80 > BinFmt.sauceMaxWidth) := by decide
-      simp only [hc, if_true, hcond, if_false]
-      rfl
-  obtain ⟨bh0, lh0, hst⟩ := hstart
+  have hc : (BinFmt.adfClearsRows == 1) = true := by decide
+  have hstart : ∃ (bh0 lh0 : Int) (ic : IceMode) (fs : List (Nat × Font)),
+      (LBuf.start BinFmt.adfStartW BinFmt.adfStartH (BinFmt.adfClearsRows == 1)).setSauce true s =
+      { bw := 80, bh := bh0, lw := 80, lh := lh0, lines := [], ice := ic, pal := dosPalette, fonts := fs, sauce := s.map metaOf } := by
+    cases s with
+    | none => rw [hc, start_setSauce_none]; exact ⟨_, _, _, _, rfl⟩
+    | some s' =>
+      have hw' := hs s' rfl
+      rw [hc, start_setSauce _ _ s' (by omega) (by omega), hw']
+      exact ⟨_, _, _, _, rfl⟩
+  obtain ⟨bh0, lh0, ic, fs, hst⟩ := hstart
   generalize hrest : toEgaData p.pal ++ (f0.data ++ p.rows.flatMap (fun row => row.flatMap fun c => [c.ch, asU8 .ice c.attr])) = rest
   have hrlen : rest.length ≥ 4288 := by
     rw [← hrest]; simp only [List.length_append, toEgaData_length, hfd]; omega
@@ -126,7 +115,8 @@ theorem adf_load (p : Pic) (f0 : Font) (s : Option Sauce)
   rw [ht1, hd1, List.take_left' (by rw [hfd, hfs]), List.drop_left' (by rw [hfd, hfs]), fromEga_toEga p.pal hpl hp6,
     flatMap_rows, pairsOf_flat, List.map_map, hdec, map_flatten_rows]
   have hplace := placeAll_rows true false 80 (by omega) rows'
-    ({ bw := 80, bh := bh0, lw := 80, lh := lh0, lines := [], ice := IceMode.ice, pal := p.pal, fonts := [(0, mkFont 16 f0.data)] } : LBuf)
+    ({ bw := 80, bh := bh0, lw := 80, lh := lh0, lines := [], ice := IceMode.ice, pal := p.pal, fonts := [(0, mkFont 16 f0.data)],
+       sauce := s.map metaOf } : LBuf)
     hrw (Nat.le_refl _) (Or.inl rfl)
   simp only [List.length_nil, List.nil_append, hrne, ne_eq, not_false_eq_true, and_true, if_true, Bool.false_eq_true,
     false_and, if_false, hrl] at hplace
@@ -145,10 +135,10 @@ theorem adf_load (p : Pic) (f0 : Font) (s : Option Sauce)
 
 
 /-- the buffer the ADF loader produces for a representable picture -/
-def adfLoaded (p : Pic) (f0 : Font) : LBuf :=
+def adfLoaded (p : Pic) (f0 : Font) (m : Option Sauce.Meta) : LBuf :=
   { bw := 80, bh := (p.h : Int), lw := 80, lh := (p.h : Int),
     lines := (p.rows.map fun r => r.map shownCell).map (partRow 80), ice := .ice, pal := p.pal,
-    fonts := [(0, mkFont 16 f0.data)] }
+    fonts := [(0, mkFont 16 f0.data)], sauce := m }
 
 theorem fontOk_parts (f : Font) (h : fontOk f = true) :
     1 ≤ f.height ∧ f.height ≤ 32 ∧ f.data.length = 256 * f.height ∧ (f.isDefault = true → f = defaultFont) := by
@@ -167,23 +157,44 @@ theorem fontOk_parts (f : Font) (h : fontOk f = true) :
 theorem lookupFont_single (f : Font) : lookupFont [(0, f)] 0 = some f := by
   unfold lookupFont; simp [List.lookup]
 
-/-- ADF: every representable picture is written, and — unless it was saved without a SAUCE record and its last 128 bytes
-    spell one — loaded back as the same picture -/
+theorem font16_parts (f : Font) (h : font16 f = true) : f.height = 16 ∧ f.data.length = 4096 := by
+  unfold font16 at h
+  simpa using h
+
+theorem samePicture_adf (p : Pic) (f0 : Font) (m : Option Sauce.Meta) (hwf : wellFormed p = true) (hw : p.w = 80) (hice : p.ice = .ice)
+    (hpages : analyzeFontUsage p.rows.flatten = [0]) (hf : lookupFont p.fonts 0 = some f0) (hf16 : f0.height = 16) :
+    SamePicture .adf p (adfLoaded p f0 m) := by
+  obtain ⟨hne, hrows, hwid⟩ := rows_nonempty p hwf
+  refine ⟨hw.symm, rfl, ?_, ?_, ?_, ?_, ?_⟩
+  · show (((p.rows.map fun r => r.map shownCell).map (partRow 80)).length : Int) ≤ (p.h : Int)
+    simp [hrows]
+  · show isIce IceMode.ice = isIce p.ice
+    rw [hice]
+  · exact cells_of_rows p (adfLoaded p f0 m) hwf (by rw [hw]; exact Nat.le_refl _) rfl rfl rfl
+  · intro _
+    unfold fontsSame
+    rw [hpages]
+    simp only [List.all_cons, List.all_nil, Bool.and_true, hf]
+    show (match lookupFont [(0, mkFont 16 f0.data)] 0 with
+          | some b => f0.height == b.height && f0.data == b.data
+          | none => false) = true
+    rw [lookupFont_single]
+    simp [mkFont, hf16]
+  · intro _; exact palSame_of_eq p (adfLoaded p f0 m) rfl
+
+/-- ADF: every representable picture is written, and — unless it was saved without a SAUCE record and its tail reads as
+    one — loaded back as the same picture -/
 theorem adf_roundtrip (o : Opts) (date : List Nat) (p : Pic) (hrep : Representable .adf o p = true) (hdate : dateOk date = true) :
     ∃ bytes, save .adf o date p = .ok bytes ∧
-      ((o.sauce = true ∨ looksLikeSauce bytes = false) → ∃ g, fromBytes .adf bytes = .ok g ∧ SamePicture .adf p g) := by
+      ((o.sauce = true ∨ tailReadsAsSauce bytes = false) → ∃ g, fromBytes .adf bytes = .ok g ∧ SamePicture .adf p g) := by
   unfold Representable at hrep
   simp only [Bool.and_eq_true, beq_iff_eq, decide_eq_true_eq] at hrep
-  obtain ⟨hwf, ⟨⟨⟨⟨⟨⟨hw, hh⟩, hice⟩, hcells⟩, hpal⟩, hpages⟩, hfont⟩⟩ := hrep
-  obtain ⟨hne, hrows, hwid⟩ := rows_nonempty p hwf
+  obtain ⟨⟨hmeta, hwf⟩, ⟨⟨⟨⟨⟨⟨hw, hh⟩, hice⟩, hcells⟩, hpal⟩, hpages⟩, hfont⟩⟩ := hrep
   cases hf : lookupFont p.fonts 0 with
   | none => rw [hf] at hfont; exact absurd hfont (by simp)
   | some f0 =>
     rw [hf] at hfont
-    simp only [Bool.and_eq_true, beq_iff_eq] at hfont
-    obtain ⟨hfok, hf16⟩ := hfont
-    obtain ⟨_, _, hfl, _⟩ := fontOk_parts f0 hfok
-    have hfd : f0.data.length = 4096 := by rw [hfl, hf16]
+    obtain ⟨hf16, hfd⟩ := font16_parts f0 hfont
     have hpl : p.pal.length = 16 := by
       unfold pal16 at hpal; simp only [Bool.and_eq_true, beq_iff_eq] at hpal; exact hpal.1
     let cellBytes := p.rows.flatMap (fun row => row.flatMap fun c => [c.ch, asU8 .ice c.attr])
@@ -204,51 +215,30 @@ theorem adf_roundtrip (o : Opts) (date : List Nat) (p : Pic) (hrep : Representab
         simp [rowsFit8, this]
       simp only [h1, Bool.false_eq_true, if_false, h2, h3, h4, hf, h5, h6, h7]
       rfl
-    -- the loaded buffer
-    let g : LBuf := adfLoaded p f0
-    have hsame : SamePicture .adf p g := by
-      refine ⟨hw.symm, rfl, ?_, ?_, ?_, ?_, ?_⟩
-      · show (((p.rows.map fun r => r.map shownCell).map (partRow 80)).length : Int) ≤ (p.h : Int)
-        simp [hrows]
-      · show isIce IceMode.ice = isIce p.ice
-        rw [hice]
-      · exact cells_of_rows p g hwf (by rw [hw]; exact Nat.le_refl _) rfl rfl rfl
-      · intro _
-        unfold fontsSame
-        rw [hpages]
-        simp only [List.all_cons, List.all_nil, Bool.and_true, hf]
-        show (match lookupFont [(0, mkFont 16 f0.data)] 0 with
-              | some b => f0.height == b.height && f0.data == b.data
-              | none => false) = true
-        rw [lookupFont_single]
-        simp [mkFont, hf16]
-      · intro _; exact palSame_of_eq p g rfl
     cases hsa : o.sauce with
     | true =>
-      obtain ⟨bytes, hw1, hfb⟩ := fromBytes_sauced .adf .ansi p date body f0 BinFmt.sauceDtCharacter BinFmt.sauceFtAnsi p.w p.h true true hf
-        (by unfold sauceFields; simp [hice]) hdate
-      refine ⟨bytes, ?_, fun _ => ⟨g, ?_, hsame⟩⟩
+      obtain ⟨bytes, hw1, _, hfb⟩ := fromBytes_sauced .adf .ansi p date body f0 hf hmeta (fun h => by cases h) hdate
+      obtain ⟨c1, _, _⟩ := carry_ansi p f0.name (bytes.length - body.length) (by omega) (by omega)
+      generalize Sauce.carry SauceKind.ansi.idx (bufInfo p f0.name) (bytes.length - body.length) = sc at hfb c1
+      refine ⟨bytes, ?_, fun _ => ⟨adfLoaded p f0 (some (metaOf sc)), ?_, samePicture_adf p f0 _ hwf hw hice hpages hf hf16⟩⟩
       · show adfSave o.sauce date p = _
         rw [hsave0, hsa]; exact hw1
       · rw [hfb]
-        have hd := dims_ansi p.w p.h (by omega) (by omega)
-        simp only [if_true] at hd ⊢
-        rw [hd]
         show adfLoad body _ = _
-        rw [hbody, hw]
-        exact adf_load p f0 _ (Or.inr rfl) hwf hw hcells hpal hpages hfd
+        rw [hbody]
+        exact adf_load p f0 _ (fun s' hs' => by cases hs'; rw [c1, hw]) hwf hw hcells hpal hpages hfd
     | false =>
       refine ⟨body, ?_, fun hor => ?_⟩
       · show adfSave o.sauce date p = _
         rw [hsave0, hsa]; rfl
-      · have hl : looksLikeSauce body = false := by
+      · have hl : tailReadsAsSauce body = false := by
           rcases hor with h | h
           · exact absurd h (by simp)
           · exact h
-        refine ⟨g, ?_, hsame⟩
-        rw [fromBytes_plain .adf body hl]
+        refine ⟨adfLoaded p f0 none, ?_, samePicture_adf p f0 none hwf hw hice hpages hf hf16⟩
+        rw [fromBytes_plain' .adf body hl]
         show adfLoad body none = _
         rw [hbody]
-        exact adf_load p f0 none (Or.inl rfl) hwf hw hcells hpal hpages hfd
+        exact adf_load p f0 none (fun s' hs' => by cases hs') hwf hw hcells hpal hpages hfd
 
 end IcyVerif.BinFormats
